@@ -211,6 +211,9 @@ func genFile(r *hx.Rng, run *hx.Run) string {
 	emitV := func(k int) {
 		for i := 0; i < k; i++ {
 			b.WriteString("v" + sep() + fmtNum(r) + sep() + fmtNum(r) + sep() + fmtNum(r))
+			if r.Chance(1, 10) {
+				b.WriteString(sep() + "1.0") // w coordinate: ignored
+			}
 			end()
 			nv++
 		}
@@ -218,6 +221,9 @@ func genFile(r *hx.Rng, run *hx.Run) string {
 	emitT := func(k int) {
 		for i := 0; i < k; i++ {
 			b.WriteString("vt" + sep() + fmtNum(r) + sep() + fmtNum(r))
+			if r.Chance(1, 6) {
+				b.WriteString(sep() + "0") // third texture coordinate: ignored
+			}
 			end()
 			nt++
 		}
@@ -265,6 +271,14 @@ func genFile(r *hx.Rng, run *hx.Run) string {
 	}
 	invalid := r.Chance(1, 14)
 	badAt := r.Intn(12)
+	respell := r.Chance(1, 8)
+	if respell {
+		run.Count("file:respelled-corner-tokens")
+	}
+	polygons := r.Chance(1, 12) // not triangulated: outside the property, model and code must still agree
+	if polygons {
+		run.Count("file:polygon-or-short-face")
+	}
 	ncorner := 0
 	pickForm := func() int {
 		forms := []int{0}
@@ -310,15 +324,28 @@ func genFile(r *hx.Rng, run *hx.Run) string {
 			run.Count("file:invalid-index")
 		}
 		ncorner++
+		num := strconv.Itoa
+		if respell && r.Chance(1, 3) && v > 0 { // same numbers, different token text: the reader keys on the text
+			switch r.Intn(3) {
+			case 0:
+				num = func(x int) string { return "0" + strconv.Itoa(x) }
+			case 1:
+				num = func(x int) string { return "+" + strconv.Itoa(x) }
+			case 2:
+				if form == 0 {
+					return strconv.Itoa(v) + "//"
+				}
+			}
+		}
 		switch form {
 		case 0:
-			return strconv.Itoa(v)
+			return num(v)
 		case 1:
-			return fmt.Sprintf("%d/%d", v, t)
+			return num(v) + "/" + strconv.Itoa(t)
 		case 2:
-			return fmt.Sprintf("%d//%d", v, n)
+			return num(v) + "//" + num(n)
 		}
-		return fmt.Sprintf("%d/%d/%d", v, t, n)
+		return num(v) + "/" + num(t) + "/" + strconv.Itoa(n)
 	}
 	sections := r.Range(1, 5)
 	firstG := r.Chance(2, 3)
@@ -361,13 +388,26 @@ func genFile(r *hx.Rng, run *hx.Run) string {
 				form = pickForm()
 			}
 			b.WriteString("f" + sep() + cornerTok(form) + sep() + cornerTok(form) + sep() + cornerTok(form))
+			if polygons && r.Chance(1, 2) {
+				for k := r.Range(1, 2); k > 0; k-- {
+					b.WriteString(sep() + cornerTok(form))
+				}
+			}
 			end()
+			if polygons && r.Chance(1, 8) {
+				b.WriteString("f" + sep() + cornerTok(form) + sep() + cornerTok(form))
+				end()
+			}
 			misc()
 		}
 		if r.Chance(1, 6) {
 			usemtl() // immediately followed by g or end of input
 			run.Count("file:usemtl-then-g-or-eof")
 		}
+	}
+	if invalid && r.Chance(1, 4) {
+		b.WriteString(hx.Pick(r, []string{"vt 0.5", "v 1 2", "vn 0 1", "v"}) + eol) // too few numbers: index panic
+		run.Count("file:invalid-short-line")
 	}
 	if invalid && r.Chance(1, 3) {
 		b.WriteString("usemtl" + eol) // declared error
@@ -422,6 +462,12 @@ func fixedFiles() []string {
 		v + "g a\nf 1 2 3\ng a\nf 2 3 4\n",                                           // repeated names
 		v + "f 1 2 3\nusemtl a\nf 2 3 4\nusemtl a\nf 1 2 4\n",                        // faces before the first usemtl
 		v,                                                                            // no face at all
+		v + "g a\nf 1 2 4 3\nf 1 2 3\n",                                             // quad: only its first triangle is read
+		v + "g a\nf 1 2\n",                                                          // too few corners: panic
+		v + "g a\nf -1 -2 -3\n",                                                     // relative indices: panic
+		v + "g a\nf 1 2 3\nf 01 3 4\nf +1 4//  2\nf 1/1 2/2 3/1\nf 1/01 2/2 4/2\n", // same corner, different spellings
+		v + "vt 0.5\n",                                                              // 1-D texture coordinate: panic
+		v + "g a\nf 1/0/1 2/0/1 3/0/1\n",                                            // index 0 for vt: treated as absent
 		v + "g a\nf 1/1/1 2/2/2 3/1/1\nf 1/1/1 3/1/1 4/2/2\nf 1/2/1 2/2/2 4/2/2\n", // shared and unshared tokens
 	}
 }
